@@ -1,6 +1,7 @@
-"""C11 — densities of states: tetrahedron weights (C side)."""
+"""C11 — densities of states: tetrahedron weights (C and Python), grid index arithmetic."""
 import z3
 from contracts import c_tetrahedron as T
+from contracts import py_tetrahedron as PT
 
 
 def build(run):
@@ -13,3 +14,7 @@ def build(run):
     reg = dict(gen)
     reg["sort_omegas"] = so
     run.verify_c(T.weight_contracts() + T.top_contracts() + T.vertex_contracts(run.finding_status("E4") == "known"), registry=reg)
+    # Python implementation: same terms, same ladder
+    PT.extract(run)
+    PT.equiv_lemmas(run)
+    PT.ladder_equiv(run)
